@@ -252,6 +252,7 @@ static inline void myth_tls_key_allocator_init(myth_tls_key_allocator_t * s) {
   }
   s->keys[myth_tls_n_keys - 1].next = 0;
   s->free = &s->keys[0];
+  myth_spin_init_body(&s->lock);
 }
 
 static inline void myth_tls_key_allocator_fini(myth_tls_key_allocator_t * s) {
@@ -271,6 +272,7 @@ static inline void myth_tls_fini() {
 static inline int
 myth_tls_key_allocator_alloc(myth_tls_key_allocator_t * s,
 			     myth_tls_destructor_fun_t destructor) {
+  myth_spin_lock_body(&s->lock);
   while (1) {
     /* try to pull the element from the free list */
     MYTH_VERIF_POINT(80);
@@ -286,10 +288,12 @@ myth_tls_key_allocator_alloc(myth_tls_key_allocator_t * s,
 	MYTH_VERIF_EV3("KaCas", (long)((ke) ? (((ke) == (myth_tls_key_entry_t *)-1) ? -2 : (long)((ke) - s->keys)) : -1), (long)((next) ? (((next) == (myth_tls_key_entry_t *)-1) ? -2 : (long)((next) - s->keys)) : -1), 1);
 	ke->next = (myth_tls_key_entry_t *)-1;
 	ke->destructor = destructor;
+	myth_spin_unlock_body(&s->lock);
 	return ke - s->keys;
       }
       MYTH_VERIF_EV3("KaCas", (long)((ke) ? (((ke) == (myth_tls_key_entry_t *)-1) ? -2 : (long)((ke) - s->keys)) : -1), (long)((next) ? (((next) == (myth_tls_key_entry_t *)-1) ? -2 : (long)((next) - s->keys)) : -1), 0);
     } else {
+      myth_spin_unlock_body(&s->lock);
       return -1;
     }
   }
@@ -302,8 +306,10 @@ myth_tls_key_allocator_dealloc(myth_tls_key_allocator_t * s, int key) {
     return (myth_tls_destructor_fun_t)-1;
   }
   myth_tls_key_entry_t * ke = &s->keys[key];
+  myth_spin_lock_body(&s->lock);
   /* make sure the key is being used */
   if (ke->next != (myth_tls_key_entry_t *)-1) {
+    myth_spin_unlock_body(&s->lock);
     return (myth_tls_destructor_fun_t)-1;
   }
   myth_tls_destructor_fun_t f = ke->destructor;
@@ -316,6 +322,7 @@ myth_tls_key_allocator_dealloc(myth_tls_key_allocator_t * s, int key) {
     MYTH_VERIF_POINT(84);
     if (__sync_bool_compare_and_swap(&s->free, head, ke)) {
       MYTH_VERIF_EV3("KdCas", key, (long)((head) ? (((head) == (myth_tls_key_entry_t *)-1) ? -2 : (long)((head) - s->keys)) : -1), 1);
+      myth_spin_unlock_body(&s->lock);
       return f;
     }
     MYTH_VERIF_EV3("KdCas", key, (long)((head) ? (((head) == (myth_tls_key_entry_t *)-1) ? -2 : (long)((head) - s->keys)) : -1), 0);
